@@ -1919,8 +1919,18 @@ func (fr *Frame) modSet(body map[int]*ssa.BasicBlock) modSet {
 				if pt, ok := x.Addr.Type().Underlying().(*types.Pointer); ok {
 					// interior pointers write into their base object: find the root
 					hs := fc.B.SortOf(rootElem(x.Addr, pt.Elem()))
-					if a, ok := rootValue(x.Addr).(*ssa.Alloc); ok && body[a.Block().Index] != nil {
+					root := rootValue(x.Addr)
+					if a, ok := root.(*ssa.Alloc); ok && body[a.Block().Index] != nil {
 						ms.localHeaps[hs] = true // a write to an object allocated in these blocks
+					} else if ia, ok := root.(*ssa.IndexAddr); ok {
+						// a write to (a field of) a slice element: goes to the materialised cell and is written back
+						// to the slice; when the slice was read from a field of an object, that object changes too
+						ms.localHeaps[hs] = true
+						if ld, ok := ia.X.(*ssa.UnOp); ok && ld.Op == token.MUL {
+							if hp, ok := ld.X.Type().Underlying().(*types.Pointer); ok {
+								ms.heaps[fc.B.SortOf(rootElem(ld.X, hp.Elem()))] = true
+							}
+						}
 					} else {
 						ms.heaps[hs] = true
 					}
@@ -1937,7 +1947,8 @@ func (fr *Frame) modSet(body map[int]*ssa.BasicBlock) modSet {
 				ms.heaps[fc.mapSort(x.Type().Underlying().(*types.Map))] = true
 			case *ssa.IndexAddr:
 				if sl, ok := x.X.Type().Underlying().(*types.Slice); ok {
-					ms.heaps[fc.B.SortOf(sl.Elem())] = true
+					// the address of a slice element is a freshly materialised cell (value-semantic slices)
+					ms.localHeaps[fc.B.SortOf(sl.Elem())] = true
 				}
 			case ssa.CallInstruction:
 				eff := fc.callEffects(x.Common())
